@@ -91,7 +91,11 @@ type Scenario struct {
 	HookDelays map[string][]time.Duration
 	HookSeed   uint64
 	Tracing    bool // callers start their own spans (C18)
-	Label      string
+	// CtxHooks wraps every request context so that Err() passes through the "ctx.Err" hook point
+	// AFTER computing its answer: a context is arbitrary code and a goroutine may be preempted
+	// between a ctx.Err() check and what it does next; the delay widens exactly that window.
+	CtxHooks bool
+	Label    string
 }
 
 func (sc *Scenario) Describe() map[string]any {
